@@ -542,6 +542,7 @@ func TestKnownC03(t *testing.T) {
 }
 
 func TestRegressC03(t *testing.T) {
+	c03ObjectValuesElements(t)
 	// F4: Equals on inline-marshaler / uncomparable Stringer fields must not panic
 	a := zap.Inline(zap.DictObject(zap.Int("a", 1)))
 	if eq, p := equalsNoPanic(a, a); p != nil || !eq {
@@ -563,5 +564,41 @@ func TestRegressC03(t *testing.T) {
 	got, _ := record(zap.Error(nil), zap.Intp("p", nil), zap.Uint32("u", math.MaxUint32))
 	if len(got.Kids) != 2 || got.Kids[0].M != "Reflected" || got.Kids[0].V != nil || got.Kids[1].V != uint32(math.MaxUint32) {
 		t.Fatalf("got %s", renderR(got))
+	}
+}
+
+// c03SelfObj knows its own address: its pointer-receiver marshaler reports whether it was invoked on the caller's
+// own slice element (ObjectValues is documented for element types whose POINTERS implement ObjectMarshaler) and
+// counts its invocations in that element.
+type c03SelfObj struct {
+	self *c03SelfObj
+	hits int
+}
+
+func (o *c03SelfObj) MarshalLogObject(enc zapcore.ObjectEncoder) error {
+	o.hits++
+	enc.AddBool("own", o.self == o)
+	return nil
+}
+
+func c03ObjectValuesElements(t *testing.T) {
+	for _, n := range []int{1, 2, 5} {
+		vs := make([]c03SelfObj, n)
+		for i := range vs {
+			vs[i].self = &vs[i]
+		}
+		r, p := record(zap.ObjectValues("k", vs))
+		if p != nil {
+			t.Fatalf("ObjectValues panicked: %v", p)
+		}
+		got := renderR(r)
+		if strings.Contains(got, "false") || strings.Count(got, "true") != n {
+			t.Fatalf("ObjectValues of %d elements: marshalers were not invoked on the caller's own elements: %s", n, got)
+		}
+		for i := range vs {
+			if vs[i].hits != 1 {
+				t.Fatalf("ObjectValues: element %d of the caller's slice was marshaled %d times (the marshaler ran on a copy)", i, vs[i].hits)
+			}
+		}
 	}
 }
